@@ -933,7 +933,8 @@ theorem Mem.rmwCore_facts {m m' : Mem L} {t : Nat} {l : L} {o : Core.Ord} {f : N
       m.len l ≤ (m'.tv t).cur.get l ∧ msg.view ≤ (m'.tv t).acq ∧
       (o.acquires = true → msg.view ≤ (m'.tv t).cur) := by
   obtain ⟨msg, hlast, hold, rfl⟩ := Mem.rmwCore_spec h
-  refine ⟨msg, _, hlast, hold, by simp, fun l' e => by simp [e], fun t' e => by simp [e], rfl, ?_, ?_, ?_, ?_, ?_, ?_, ?_, ?_⟩
+  refine ⟨msg, ((((m.tv t).read msg l (m.len l - 1) o).wrote l (m.len l)).relView l (m.len l) o).join msg.view,
+    hlast, hold, by simp, fun l' e => by simp [e], fun t' e => by simp [e], rfl, ?_, ?_, ?_, ?_, ?_, ?_, ?_, ?_⟩
   · exact View.le_join_right _ _
   · intro hr
     refine View.le_trans ?_ (View.le_join_left _ _)
@@ -1051,23 +1052,24 @@ theorem mp_fences (m : Mem L) (a b : Nat) (l : L) (v : Nat) {m2 m3 m4 : Mem L} {
     (hext2 : m3.Ext m4) :
     v' = v ∧ (m.tv a).cur ≤ ((m4.fence b .acq).tv b).cur := by
   have hlen : (m.fence a .rel).len l = m.len l := by simp
+  have hW : (m.tv a).cur ≤ ((((m.fence a .rel).tv a)).wrote l (m.len l)).relView l (m.len l) .rlx := by
+    simp [TView.relView, Core.Ord.releases, TView.wrote, Mem.fence]
+    exact View.le_bump _ _ _
   have hmsg : (((m.fence a .rel).write a l .rlx v).hist l)[m.len l]? =
       some ⟨v, ((((m.fence a .rel).tv a)).wrote l (m.len l)).relView l (m.len l) .rlx⟩ := by
     rw [Mem.write_hist_same, hlen]; simp [Mem.len]
+  generalize ((((m.fence a .rel).tv a)).wrote l (m.len l)).relView l (m.len l) .rlx = W at hW hmsg
   have hmsg2 := hext.get? l _ _ hmsg
   obtain ⟨msg, hm, hv, _, rfl⟩ := Mem.read_spec h
   rw [hmsg2] at hm
   cases hm
   refine ⟨hv, ?_⟩
-  have h1 : (m.tv a).cur ≤ ((upd m2.tv b ((m2.tv b).read _ l (m.len l) .rlx)) b).acq := by
-    simp only [upd_same]
-    refine View.le_trans ?_ (TView.read_acq_view _ _ _ _ _)
-    simp [TView.relView, Core.Ord.releases, TView.wrote, Mem.fence]
-    exact View.le_bump _ _ _
   have h2 := hext2.acq b
+  simp only [upd_same] at h2
+  have h1 := TView.read_acq_view (m2.tv b) (⟨v, W⟩ : Msg L) l (m.len l) .rlx
   have h3 : (m4.tv b).acq ≤ ((m4.fence b .acq).tv b).cur := by
     simp [Mem.fence]; exact View.le_join_right _ _
-  exact View.le_trans h1 (View.le_trans h2 h3)
+  exact View.le_trans hW (View.le_trans h1 (View.le_trans h2 h3))
 
 /-- Store buffering (Dekker): of two SC fences the later one's thread view includes everything the
 earlier thread had seen or done before its fence.  Hence after the later fence that thread cannot
@@ -1087,5 +1089,41 @@ theorem sc_fence_dekker_read (m : Mem L) (a b : Nat) {m2 m3 m4 : Mem L} (l : L) 
   have h2 := hext2.cur b l
   have h3 := read_respects_view h
   omega
+
+/-- a compare-exchange either succeeds as an RMW on the latest message, which holds the expected
+value, or fails as a load of a message holding another value -/
+theorem Mem.cas_spec {m m' : Mem L} {t : Nat} {l : L} {so fo : Core.Ord} {e d ts : Nat} {ok : Bool} {obs : Nat}
+    (h : m.cas t l so fo e d ts = some (m', ok, obs)) :
+    (ok = true ∧ obs = e ∧ m.rmw t l so (fun _ => d) = some (m', obs)) ∨
+    (ok = false ∧ obs ≠ e ∧ m.read t l fo ts = some (m', obs)) := by
+  unfold Mem.cas at h
+  split at h
+  · cases h
+  · rename_i msg hm
+    split at h
+    · rename_i hv
+      split at h
+      · split at h
+        · cases h
+        · rename_i m1 old h1
+          cases h
+          obtain ⟨msg', hlast, hold, _⟩ := rmw_reads_last h1
+          have hl : (m.hist l)[m.len l - 1]? = some msg' := getLast?_getElem? _ _ hlast
+          rename_i hts
+          have : ts = m.len l - 1 := by omega
+          subst this
+          rw [hm] at hl
+          cases hl
+          exact Or.inl ⟨rfl, by rw [hold]; exact hv, h1⟩
+      · cases h
+    · rename_i hv
+      split at h
+      · cases h
+      · rename_i m1 v h1
+        cases h
+        obtain ⟨msg', hm', hv', _, _⟩ := Mem.read_spec h1
+        rw [hm] at hm'
+        cases hm'
+        exact Or.inr ⟨rfl, by rw [hv']; exact hv, h1⟩
 
 end Babylon.Core.MemView
